@@ -482,6 +482,31 @@ func runC18Stack(c C18Case) (st Stats, err error) {
 					st.Class("fifo-off-attempt")
 				}
 				s.SetFIFO(want)
+			case "closure":
+				// closures that accept everything (or their removal) have no say in any option, setting or getter
+				switch step.Mode {
+				case 0:
+					s.SetPushPolicy(func(...any) error { return nil })
+				case 1:
+					s.SetPushPolicy(nil)
+				case 2:
+					s.SetValidityPolicy(func(...any) error { return nil })
+				case 3:
+					s.SetValidityPolicy(nil)
+				case 4:
+					s.SetEqualityPolicy(func(any, any) error { return nil })
+				case 5:
+					s.SetEqualityPolicy()
+				case 6:
+					s.SetMarshaler(func(...any) error { return nil })
+				case 7:
+					s.SetMarshaler()
+				case 8:
+					s.SetUnmarshaler(func(...any) ([]any, error) { return nil, nil })
+				default:
+					s.SetUnmarshaler()
+				}
+				st.Class("closure-installed-or-removed")
 			case "push":
 				if !ro {
 					m.content = append(m.content, "p"+itoa(i))
@@ -647,6 +672,26 @@ func runC18Cond(c C18Case) (st Stats, err error) {
 			case "logger":
 				cd.SetLogger(c18Logger(step.Mode))
 				st.Class("set-logger")
+			case "closure":
+				switch step.Mode {
+				case 0, 1, 2:
+					cd.SetValidityPolicy(func(...any) error { return nil })
+				case 3:
+					cd.SetValidityPolicy(nil)
+				case 4:
+					cd.SetEqualityPolicy(func(any, any) error { return nil })
+				case 5:
+					cd.SetEqualityPolicy()
+				case 6:
+					cd.SetEvaluator(func(...any) (any, error) { return nil, nil })
+				case 7:
+					cd.SetEvaluator(nil)
+				case 8:
+					cd.SetUnmarshaler(func(...any) ([]any, error) { return nil, nil })
+				default:
+					cd.SetUnmarshaler()
+				}
+				st.Class("closure-installed-or-removed")
 			case "id":
 				if !ro {
 					id = step.S
@@ -891,11 +936,11 @@ func genLogArgs(t *rapid.T) []string {
 func genC18(t *rapid.T, tier Tier) C18Case {
 	c := C18Case{Target: "stack", Kind: rapid.SampledFrom(stackKinds).Draw(t, "kind"), Init: rapid.SampledFrom(initStates()).Draw(t, "init")}
 	setters := triStateSetters(stackMethods)
-	ops := []string{"tri", "tri", "tri", "tri", "id", "cat", "delim", "symbol", "encap", "encap", "aux", "loglevel", "loglevel", "unloglevel", "logger", "seterr", "fifo", "push", "pop"}
+	ops := []string{"tri", "tri", "tri", "tri", "id", "cat", "delim", "symbol", "encap", "encap", "aux", "loglevel", "loglevel", "unloglevel", "logger", "seterr", "fifo", "push", "pop", "closure"}
 	if rapid.IntRange(0, 4).Draw(t, "cond") == 0 {
 		c.Target = "cond"
 		setters = triStateSetters(condMethods)
-		ops = []string{"tri", "tri", "tri", "id", "cat", "encap", "aux", "loglevel", "unloglevel", "logger", "seterr"}
+		ops = []string{"tri", "tri", "tri", "id", "cat", "encap", "aux", "loglevel", "unloglevel", "logger", "seterr", "closure"}
 	}
 	if rapid.IntRange(0, 2).Draw(t, "clearro") > 0 {
 		c.Init &^= bRO
@@ -951,6 +996,8 @@ func genC18(t *rapid.T, tier Tier) C18Case {
 			}
 		case "fifo":
 			s.Mode = rapid.IntRange(0, 1).Draw(t, "fifo")
+		case "closure":
+			s.Mode = rapid.SampledFrom([]int{0, 0, 0, 1, 2, 2, 3, 4, 5, 6, 7, 8, 9}).Draw(t, "closure")
 		}
 		c.Steps = append(c.Steps, s)
 	}
